@@ -24,7 +24,7 @@ use poulpy_core::{
     },
 };
 use poulpy_hal::{
-    api::{ScratchOwnedAlloc, ScratchOwnedBorrow},
+    api::{ScratchOwnedBorrow},
     layouts::{DeviceBuf, Module, NoiseInfos, ScratchOwned, ToOwnedDeep, VecZnx, ZnxInfos, ZnxViewMut},
     source::Source,
 };
@@ -284,7 +284,7 @@ fn classes(c: &Case, bound: f64, steps: usize, e: f64) -> (bool, Vec<&'static st
 
 fn run_ks<B: FullBackend>(m: &Module<B>, c: &Case) -> Verdict {
     let n = m.n();
-    let mut scratch = ScratchOwned::<B>::alloc(SCRATCH);
+    let mut scratch = pzv_be::dirty_scratch::<B>(SCRATCH);
     let assign = c.op % 2 == 1;
     let opn = if assign { "glwe_keyswitch_assign" } else { "glwe_keyswitch" };
     let (ri, ro) = (c.rank_in as usize, c.rank_out as usize);
@@ -340,7 +340,7 @@ pub const AUT_OPS: [&str; 8] = [
 
 fn run_aut<B: FullBackend>(m: &Module<B>, c: &Case) -> Verdict {
     let n = m.n();
-    let mut scratch = ScratchOwned::<B>::alloc(SCRATCH);
+    let mut scratch = pzv_be::dirty_scratch::<B>(SCRATCH);
     let op = (c.op % 8) as usize;
     let opn = AUT_OPS[op];
     let assign = matches!(op, 1 | 3 | 6 | 7);
@@ -416,7 +416,7 @@ fn run_aut<B: FullBackend>(m: &Module<B>, c: &Case) -> Verdict {
 fn run_trace<B: FullBackend>(m: &Module<B>, c: &Case) -> Verdict {
     let n = m.n();
     let log_n = c.log_n as usize;
-    let mut scratch = ScratchOwned::<B>::alloc(SCRATCH);
+    let mut scratch = pzv_be::dirty_scratch::<B>(SCRATCH);
     let assign = c.op % 2 == 1;
     let opn = if assign { "glwe_trace_assign" } else { "glwe_trace" };
     let r = c.rank_out as usize;
@@ -532,7 +532,7 @@ pub const LWE_OPS: [&str; 4] = ["lwe_keyswitch", "glwe_from_lwe", "lwe_from_glwe
 
 fn run_lwe<B: FullBackend>(m: &Module<B>, c: &Case) -> Verdict {
     let n = m.n();
-    let mut scratch = ScratchOwned::<B>::alloc(SCRATCH);
+    let mut scratch = pzv_be::dirty_scratch::<B>(SCRATCH);
     let op = (c.op % 4) as usize;
     let opn = LWE_OPS[op];
     let kb = c.kb as usize;
@@ -665,7 +665,7 @@ pub const KK_OPS: [&str; 4] = ["gglwe_keyswitch", "gglwe_keyswitch_assign", "glw
 
 fn run_kk<B: FullBackend>(m: &Module<B>, c: &Case) -> Verdict {
     let n = m.n();
-    let mut scratch = ScratchOwned::<B>::alloc(SCRATCH);
+    let mut scratch = pzv_be::dirty_scratch::<B>(SCRATCH);
     let op = (c.op % 4) as usize;
     let opn = KK_OPS[op];
     if op < 2 {
@@ -816,7 +816,7 @@ fn bitrev(x: usize, bits: usize) -> usize {
 fn run_pack<B: FullBackend>(m: &Module<B>, c: &Case) -> Verdict {
     let n = m.n();
     let log_n = c.log_n as usize;
-    let mut scratch = ScratchOwned::<B>::alloc(SCRATCH);
+    let mut scratch = pzv_be::dirty_scratch::<B>(SCRATCH);
     let streaming = c.op % 2 == 1;
     let opn = if streaming { "glwe_packer" } else { "glwe_pack" };
     let r = c.rank_out as usize;
